@@ -66,6 +66,10 @@ type TCPCase struct {
 	// Pre: this many leading steps (sends and half-closes only) are performed BEFORE the relay
 	// starts, so that it finds data and end-of-stream already buffered (data+EOF in one Read)
 	Pre int `json:"pre,omitempty"`
+	// ReactiveA/B: that application behaves like a client waiting for a response: when its
+	// incoming stream ends (EOF or closed) after a transport error it closes its socket.
+	ReactiveA bool `json:"reactive_a,omitempty"`
+	ReactiveB bool `json:"reactive_b,omitempty"`
 }
 
 // ---------------------------------------------------------------------------
@@ -313,6 +317,45 @@ func runTCP(c *TCPCase) (fail *failure, class string, nt bool, sig string) {
 		}
 		return false
 	}
+	// afterFault: the first transport error has ended one direction. The application at the
+	// receiving end of that direction may be idle, waiting for exactly those bytes (it sent its
+	// request and has not half-closed): unless it is told that nothing more will come (EOF from
+	// the relay's half-close, or the connection closed) nothing ever ends the other direction
+	// and Bidirectional cannot return. Asserted when the relay's end supports CloseWrite
+	// (Bidirectional doc, item 1: "when a direction ends, CloseWrite() tells the peer EOF").
+	reactive := [2]bool{c.ReactiveA, c.ReactiveB}
+	notified := false
+	afterFault := func() *failure {
+		if m.clean || notified || stopped {
+			return nil
+		}
+		notified = true
+		d := m.firstFault
+		dst := 1 - d
+		if m.firstKind == "write-to-closed" || noCW[dst] || m.closed[dst] {
+			return nil
+		}
+		if !h.wait(B, func() bool { return col[dst].eof || col[dst].done }) {
+			other := "still open and idle"
+			if m.d[dst].ended {
+				other = "finished"
+			}
+			return hangf("C12/tcp/failed-direction-not-signalled/"+m.firstKind,
+				"direction %s ended by %s after %d bytes, but application %s saw neither end-of-stream nor a closed connection within %v (relay end supports CloseWrite; direction %s is %s, so nothing else can end the relay)",
+				dirName(d), m.firstKind, m.d[d].exp, appName(dst), B, dirName(dst), other)
+		}
+		vkit.Class("tcp-feat:error-end-signalled-to-peer")
+		if reactive[dst] {
+			if !m.d[dst].ended {
+				vkit.Class("tcp-feat:idle-requester-closes-after-error-end")
+				m.d[dst].ended = true
+				m.d[dst].endKind = "eof"
+			}
+			app[dst].Close()
+			m.closed[dst] = true
+		}
+		return nil
+	}
 	preSteps := 0
 	for i, st := range c.Steps {
 		if !started && (i >= c.Pre || !preOK(st.Op)) {
@@ -329,6 +372,9 @@ func runTCP(c *TCPCase) (fail *failure, class string, nt bool, sig string) {
 		}
 		if started {
 			if f := earlyReturn(); f != nil {
+				return f, "", false, ""
+			}
+			if f := afterFault(); f != nil {
 				return f, "", false, ""
 			}
 		}
@@ -457,6 +503,9 @@ func runTCP(c *TCPCase) (fail *failure, class string, nt bool, sig string) {
 		if f := flushPending(); f != nil {
 			return f, "", false, ""
 		}
+	}
+	if f := afterFault(); f != nil {
+		return f, "", false, ""
 	}
 	// finish: bring every direction that is still open to its end (source half-closes)
 	for x := 0; x < 2 && !stopped; x++ {
@@ -700,6 +749,8 @@ func genTCP(t *rapid.T) *TCPCase {
 	c.EOFWithDataB = rapid.IntRange(0, 1).Draw(t, "eofWithDataB") == 0 // the tunnel end (QUIC streams do this)
 	c.ErrKindA = rapid.SampledFrom(errKinds).Draw(t, "errKindA")
 	c.ErrKindB = rapid.SampledFrom(errKinds).Draw(t, "errKindB")
+	c.ReactiveA = rapid.Bool().Draw(t, "reactiveA")
+	c.ReactiveB = rapid.Bool().Draw(t, "reactiveB")
 	if rapid.IntRange(0, 2).Draw(t, "preStart") == 0 {
 		c.Pre = rapid.IntRange(1, len(c.Steps)).Draw(t, "pre")
 	}
@@ -783,6 +834,23 @@ func TestTCPScripted(t *testing.T) {
 			c2.EOFWithDataB, c2.NoCWB, c2.ReadCapB, c2.Pre = true, true, cap, 1
 			c2.Steps = []TCPStep{{Op: "sendB", N: n}, {Op: "sendA", N: 2000}, {Op: "sendhcB", N: n}, {Op: "sendhcA", N: 9}}
 			check(t, Case{TCP: &c2})
+		}
+	}
+	// request sent, requester idle (no half-close), the response direction dies at a point
+	for _, kind := range errKinds {
+		for _, k := range []int64{0, 1, 300} {
+			c := base() // tunnel read error while the local app waits
+			c.ErrKindB, c.FailReadB, c.ReactiveA, c.NoCWB = kind, k, true, true
+			c.Steps = []TCPStep{{Op: "sendA", N: 700}, {Op: "sendB", N: 1000}}
+			check(t, Case{TCP: &c})
+			c2 := base() // write to the local socket fails while the local app waits
+			c2.ErrKindA, c2.FailWriteA, c2.ReactiveA, c2.NoCWB = kind, k, true, true
+			c2.Steps = []TCPStep{{Op: "sendA", N: 700}, {Op: "sendB", N: 1000}}
+			check(t, Case{TCP: &c2})
+			c3 := base() // mirrored: local read error while the tunnel side waits
+			c3.ErrKindA, c3.FailReadA, c3.ReactiveB = kind, k, true
+			c3.Steps = []TCPStep{{Op: "sendB", N: 700}, {Op: "sendA", N: 1000}}
+			check(t, Case{TCP: &c3})
 		}
 	}
 	for _, kind := range errKinds {
